@@ -341,21 +341,55 @@ func check(ctx *pbt.Ctx, c Case) error {
 	if (len(c.Lock)+len(c.Unlock))%2 == 1 { // the debugger's documented option; must be as unobtrusive
 		dd = debug.NewDebugger(debug.WithRewind())
 	}
+	// debug.NewDebugger fans every hook out to the handlers attached to it, in the order they were
+	// attached. Each hook gets its own number of handlers (1..12, from the shape of the case); a
+	// handler logs (hook, its position). The log must be, event by event, the complete run
+	// 0..k-1 of that hook's handlers, and the events themselves the recorded callback sequence.
+	var ddLog []byte // pairs: hook character, handler position
 	var ddSeq strings.Builder
-	dd.AttachBeforeExecute(func(*interpreter.State) { ddSeq.WriteByte('E') })
-	dd.AttachAfterExecute(func(*interpreter.State) { ddSeq.WriteByte('e') })
-	dd.AttachBeforeStep(func(*interpreter.State) { ddSeq.WriteByte('S') })
-	dd.AttachAfterStep(func(*interpreter.State) { ddSeq.WriteByte('s') })
-	dd.AttachBeforeExecuteOpcode(func(*interpreter.State) { ddSeq.WriteByte('O') })
-	dd.AttachAfterExecuteOpcode(func(*interpreter.State) { ddSeq.WriteByte('o') })
-	dd.AttachBeforeScriptChange(func(*interpreter.State) { ddSeq.WriteByte('C') })
-	dd.AttachAfterScriptChange(func(*interpreter.State) { ddSeq.WriteByte('c') })
-	dd.AttachAfterSuccess(func(*interpreter.State) { ddSeq.WriteByte('Y') })
-	dd.AttachAfterError(func(*interpreter.State, error) { ddSeq.WriteByte('N') })
-	dd.AttachBeforeStackPush(func(*interpreter.State, []byte) { ddSeq.WriteByte('P') })
-	dd.AttachAfterStackPush(func(*interpreter.State, []byte) { ddSeq.WriteByte('p') })
-	dd.AttachBeforeStackPop(func(*interpreter.State) { ddSeq.WriteByte('Q') })
-	dd.AttachAfterStackPop(func(*interpreter.State, []byte) { ddSeq.WriteByte('q') })
+	nh := func(hook byte) int { return 1 + (len(c.Lock)*7+len(c.Unlock)*3+int(c.Flags)+int(hook))%12 }
+	for _, hook := range []byte(kinds) {
+		hook := hook
+		for pos := 0; pos < nh(hook); pos++ {
+			pos := pos
+			note := func() {
+				ddLog = append(ddLog, hook, byte(pos))
+				if pos == 0 {
+					ddSeq.WriteByte(hook)
+				}
+			}
+			switch hook {
+			case 'E':
+				dd.AttachBeforeExecute(func(*interpreter.State) { note() })
+			case 'e':
+				dd.AttachAfterExecute(func(*interpreter.State) { note() })
+			case 'S':
+				dd.AttachBeforeStep(func(*interpreter.State) { note() })
+			case 's':
+				dd.AttachAfterStep(func(*interpreter.State) { note() })
+			case 'O':
+				dd.AttachBeforeExecuteOpcode(func(*interpreter.State) { note() })
+			case 'o':
+				dd.AttachAfterExecuteOpcode(func(*interpreter.State) { note() })
+			case 'C':
+				dd.AttachBeforeScriptChange(func(*interpreter.State) { note() })
+			case 'c':
+				dd.AttachAfterScriptChange(func(*interpreter.State) { note() })
+			case 'Y':
+				dd.AttachAfterSuccess(func(*interpreter.State) { note() })
+			case 'N':
+				dd.AttachAfterError(func(*interpreter.State, error) { note() })
+			case 'P':
+				dd.AttachBeforeStackPush(func(*interpreter.State, []byte) { note() })
+			case 'p':
+				dd.AttachAfterStackPush(func(*interpreter.State, []byte) { note() })
+			case 'Q':
+				dd.AttachBeforeStackPop(func(*interpreter.State) { note() })
+			case 'q':
+				dd.AttachAfterStackPop(func(*interpreter.State, []byte) { note() })
+			}
+		}
+	}
 	withDD := libexec.Run(c.Unlock, c.Lock, flags, c.Ctx, dd)
 	for name, o := range map[string]libexec.Outcome{"none": plain, "recording": withRec, "scribbling": withScr, "debug.NewDebugger": withDD} {
 		if o.Panic != "" {
@@ -391,6 +425,16 @@ func check(ctx *pbt.Ctx, c Case) error {
 			return fmt.Errorf("event %d (%c): snapshot differs after scribbling: stack %x vs %x, alt %x vs %x, cond %v vs %v, pc %d:%d vs %d:%d; %s",
 				i, a.kind, a.stack, b.stack, a.alt, b.alt, a.cond, b.cond, a.sidx, a.oidx, b.sidx, b.oidx, id)
 		}
+	}
+	for k := 0; k < len(ddLog); {
+		hook := ddLog[k]
+		want := nh(hook)
+		for pos := 0; pos < want; pos++ {
+			if k+2*pos+1 >= len(ddLog) || ddLog[k+2*pos] != hook || int(ddLog[k+2*pos+1]) != pos {
+				return fmt.Errorf("debug.NewDebugger with %d handlers on hook %c: an event of that hook did not reach its handlers 0..%d in attachment order (log around it: %q); %s", want, hook, want-1, ddLog[k:min(len(ddLog), k+2*want+4)], id)
+			}
+		}
+		k += 2 * want
 	}
 	if rec.seq() != ddSeq.String() {
 		return fmt.Errorf("debug.NewDebugger reported a different callback sequence: %q vs %q; %s", ddSeq.String(), rec.seq(), id)
